@@ -35,6 +35,7 @@ def ellipse_deviation(chk, shapes):
                      sp.Le(sp.Abs(point[2] - cz), sp.Rational(1, 10**8)))
         for p in chk.explore(fkey, run, assumptions=CT.Q.facts()):
             if p.kind != "return":
+                chk.path_raised(fkey, p)
                 continue
             try:
                 code = CT.elem_bool(p.value, mode == "single")
@@ -112,6 +113,7 @@ def polygon_is_inside(chk, shapes, ld, mode):
     x1, y1, x2, y2 = sp.symbols("x1 y1 x2 y2", real=True)
     for p in chk.explore(fkey, run, assumptions=NV.facts() + (CT.Q.facts() if mode != "single" else [])):
         if p.kind != "return":
+            chk.path_raised(fkey, p)
             continue
         t = f"{mode}:{path_tag(p)}"
         try:
